@@ -238,6 +238,16 @@ func (g *docGen) blocks(depth int, inAnchor bool) string {
 func GenHTML(t *rapid.T, next *int, depth int) Doc {
 	g := &docGen{t: t, next: next}
 	content := g.blocks(depth, false)
+	if rapid.SampledFrom([]int{0, 0, 0, 0, 0, 0, 0, 1}).Draw(t, "manylinks") == 1 {
+		// a link list: numbers with two digits
+		var b strings.Builder
+		b.WriteString("<ul>")
+		for n := rapid.IntRange(9, 13).Draw(t, "nmany"); n > 0; n-- {
+			id := g.link("a")
+			b.WriteString(fmt.Sprintf(`<li><a href="%s">%s %s</a></li>`, Target(id), g.words(3), Label(id)))
+		}
+		content += b.String() + "</ul>"
+	}
 	return Doc{MediaType: "text/html", Content: content, Links: g.links, Nested: g.nest, Odd: g.odd, LongWord: g.long}
 }
 
@@ -321,9 +331,18 @@ func GenMarkdown(t *rapid.T, next *int, depth int) Doc {
 func GenGemtext(t *rapid.T, next *int) Doc {
 	g := &docGen{t: t, next: next}
 	n := rapid.IntRange(1, 8).Draw(t, "nlines")
+	many := rapid.SampledFrom([]int{0, 0, 0, 0, 0, 1}).Draw(t, "manylinks") == 1
+	if many {
+		// a link page: numbers with two (rarely three) digits
+		n = rapid.SampledFrom([]int{10, 11, 12, 14, 18, 102}).Draw(t, "nmany")
+	}
 	lines := []string{}
 	for i := 0; i < n; i++ {
-		switch rapid.IntRange(0, 8).Draw(t, "gemline") {
+		kind := rapid.IntRange(0, 8).Draw(t, "gemline")
+		if many && kind != 0 {
+			kind = 2 + kind%2
+		}
+		switch kind {
 		case 0, 1:
 			lines = append(lines, g.words(14))
 		case 2:
